@@ -512,6 +512,302 @@ func storedWays(c *chk.Ctx, st *ssa.Store, root *ssa.Function) []valueWay {
 	return out
 }
 
+// ruleResponseMarshal (C19, C18, C13): Response.MarshalJSON — what the HTTP
+// bridge writes for each reply — returns, on every path, the pair produced by
+// the package's message encoder (or json.Marshal): nothing is formatted by
+// hand, so the text is JSON whatever the error message or data contain.
+func ruleResponseMarshal(c *chk.Ctx) {
+	f := c.M.Func(c.M.Pkg, "(*Response).MarshalJSON")
+	if f == nil {
+		c.Undecided("PROV.encoder", nil, "Response.MarshalJSON", 0, "Response.MarshalJSON not found")
+		return
+	}
+	encs := encoderFuncs(c)
+	bad := ""
+	n := 0
+	for _, r := range ir.Returns(f) {
+		n++
+		ok := false
+		if e, isE := ir.ReturnResult(r, 0).(*ssa.Extract); isE && e.Index == 0 && len(r.Results) == 2 {
+			if call, isCall := e.Tuple.(*ssa.Call); isCall && ir.IsExtractOf(ir.ReturnResult(r, 1), call, 1) {
+				if ir.IsCallTo(&call.Call, "encoding/json.Marshal") {
+					ok = true
+				}
+				if g := call.Call.StaticCallee(); g != nil && (encs[g] || encs[ir.Resolve(g)]) {
+					ok = true
+				}
+			}
+		}
+		if !ok && bad == "" {
+			bad = c.P.Pos(r.Pos())
+		}
+	}
+	c.Check(bad == "" && n > 0, "PROV.encoder", f, "Response encodes through the message encoder", f.Pos(), "every return of Response.MarshalJSON is the message encoder's (or json.Marshal's) pair", "Response.MarshalJSON assembles its output by hand (return at "+bad+"): a string formatted with Go's own quoting is not JSON for every message (control characters are written as \\x.. escapes), so the HTTP bridge would answer 500 and the remote client shut down")
+}
+
+// ruleOneSemaphoreAtConstruction (C06): the number of handlers that may run at
+// once is one number fixed when the server is built: exactly one semaphore is
+// created, by the function that allocates the Server (or a helper of it), and
+// the server keeps no pointer to the caller's options (a limit read later
+// through such a pointer is whatever the caller has since written there). A
+// second admission gate in front of the handlers would make the limit lower
+// than the configured one for some requests.
+func ruleOneSemaphoreAtConstruction(c *chk.Ctx) {
+	cs := semConstructions(c)
+	if len(cs) == 0 {
+		c.Undecided("PAIR.sem", nil, "one semaphore, made at construction", 0, "no semaphore construction found")
+		return
+	}
+	var ctor *ssa.Function
+	for _, f := range pkgFuncs(c, c.M.Pkg) {
+		if f.Parent() != nil || !ir.Exported(f) || f.Signature.Recv() != nil {
+			continue
+		}
+		ir.Instrs(f, func(ins ssa.Instruction) {
+			if al, ok := ins.(*ssa.Alloc); ok && al.Heap && types.Unalias(al.Type().(*types.Pointer).Elem()) == types.Type(c.M.Server) {
+				ctor = f
+			}
+		})
+	}
+	where := ""
+	for _, call := range cs {
+		where += " " + c.P.Pos(call.Pos())
+	}
+	c.Check(len(cs) == 1, "PAIR.sem", cs[0].Parent(), "one semaphore", cs[0].Pos(), "exactly one semaphore is created in the core package", fmt.Sprintf("%d semaphores are created (%s): a second admission gate in front of the handlers lets fewer requests run than the configured limit although slots are free", len(cs), strings.TrimSpace(where)))
+	if ctor == nil {
+		c.Undecided("PAIR.sem", nil, "semaphore made at construction", 0, "the function that allocates the Server was not found")
+	} else {
+		for _, call := range cs {
+			in := call.Parent() == ctor || c.P.InExt(ctor, ir.Root(call.Parent()))
+			c.Check(in, "PAIR.sem", call.Parent(), "semaphore made at construction", call.Pos(), "the semaphore is created where the Server is built", "the semaphore is created in "+ir.Name(call.Parent())+", not where the Server is built: its size is then taken from whatever the options hold at that later time")
+		}
+	}
+	// no pointer to the options is kept in the Server
+	bad := ""
+	for _, f := range pkgFuncs(c, c.M.Pkg) {
+		ir.Instrs(f, func(ins ssa.Instruction) {
+			st, ok := ins.(*ssa.Store)
+			if !ok {
+				return
+			}
+			fa, ok := st.Addr.(*ssa.FieldAddr)
+			if !ok || ir.FieldOwner(fa) != c.M.Server {
+				return
+			}
+			if pt, isPtr := st.Val.Type().(*types.Pointer); isPtr && strings.HasSuffix(pt.Elem().String(), ".ServerOptions") && bad == "" {
+				bad = c.P.Pos(st.Pos())
+			}
+		})
+	}
+	c.Check(bad == "", "PAIR.sem", ctor, "options read at construction only", 0, "the Server keeps no pointer to the caller's options", "the Server keeps a pointer to the caller's options (stored at "+bad+"): a setting read through it after construction is whatever the caller has written there since")
+}
+
+// ruleNormaliserExact (C01, C02, C03, C07): the id normaliser treats exactly
+// the null token as "no id": it returns nil on every path where the null
+// predicate holds and on no other (an id such as the empty string "" is an id,
+// and a call carrying it must be answered).
+func ruleNormaliserExact(c *chk.Ctx) {
+	n := 0
+	for _, g := range pkgFuncs(c, c.M.Pkg) {
+		if g.Parent() != nil || !isNullNormaliser(c, g) || !strings.HasSuffix(g.Signature.Results().At(0).Type().String(), "json.RawMessage") {
+			continue
+		}
+		n++
+		isNullCall := func(cd ir.Cond) (bool, bool) {
+			call, ok := cd.V.(*ssa.Call)
+			if !ok {
+				return false, false
+			}
+			h := call.Call.StaticCallee()
+			if h == nil || !c.P.InRepo[h] || h.Signature.Results().Len() != 1 || h.Signature.Results().At(0).Type().String() != "bool" || len(call.Call.Args) != 1 {
+				return false, false
+			}
+			if _, isP := ir.NormCell(call.Call.Args[0]).(*ssa.Parameter); !isP {
+				return false, false
+			}
+			// the null predicate: mentions the token null (its exactness is TABLE.null)
+			mentions := false
+			ir.Instrs(h, func(ins ssa.Instruction) {
+				for _, op := range ins.Operands(nil) {
+					if op != nil && *op != nil {
+						if k, isK := constString(*op); isK && k == "null" {
+							mentions = true
+						}
+						if k, isK := ir.ConstInt(*op); isK && k == 'n' {
+							mentions = true
+						}
+					}
+				}
+			})
+			return mentions, cd.Truth
+		}
+		bad := ""
+		for _, r := range ir.Returns(g) {
+			v := ir.ReturnResult(r, 0)
+			wantNull := ir.IsNilConst(v)
+			alts := ir.CondAltsAt(r.Block())
+			if len(alts) == 0 {
+				alts = [][]ir.Cond{ir.CondsAt(r.Block())}
+			}
+			for _, alt := range alts {
+				okAlt := false
+				for _, cd := range alt {
+					if isN, truth := isNullCall(cd); isN && truth == wantNull {
+						okAlt = true
+					}
+					// len(id) == 0 is "no id" as well (nothing was sent)
+					if sv, isNE := ir.NonEmptyLen(cd); isNE && wantNull == false {
+						_ = sv
+					}
+				}
+				if !okAlt && bad == "" {
+					bad = c.P.Pos(r.Pos())
+				}
+			}
+		}
+		c.Check(bad == "", "TABLE.null", g, "id normaliser drops exactly the null token", g.Pos(), "nil is returned exactly on the true edge of the null predicate, the id itself on its false edge", "the id normaliser can treat something other than the null token as \"no id\" (return at "+bad+" is reached without the null predicate deciding it): a call carrying such an id would be run as a notification and never answered")
+	}
+	if n == 0 {
+		c.Undecided("TABLE.null", nil, "id normaliser", 0, "no id normaliser found")
+	}
+}
+
+// ruleTaggedEmbeddedKeepsPosition (C15): when the positional names of a struct
+// parameter are collected, an embedded field is skipped only after its json
+// tag has been looked at: "anonymous fields are skipped unless they are
+// tagged". A test of the Anonymous flag ahead of the tag lookup drops tagged
+// embedded fields, and every later array element lands on the wrong field.
+func ruleTaggedEmbeddedKeepsPosition(c *chk.Ctx) {
+	n := 0
+	for _, f := range pkgFuncs(c, c.M.HandlerPkg) {
+		var lookups []*ssa.Call
+		ir.Instrs(f, func(ins ssa.Instruction) {
+			if call, ok := ins.(*ssa.Call); ok && ir.IsCallTo(&call.Call, "(reflect.StructTag).Lookup") && len(call.Call.Args) == 2 {
+				if k, isK := constString(call.Call.Args[1]); isK && k == "json" {
+					lookups = append(lookups, call)
+				}
+			}
+		})
+		if len(lookups) == 0 {
+			continue
+		}
+		// the lookup of a field's tag does not depend on the field's Anonymous flag (the flag may be
+		// read first, as a default that a tag overrides; it may not decide whether the tag is looked at)
+		isAnon := func(v ssa.Value) bool {
+			if u, isNot := v.(*ssa.UnOp); isNot && u.Op == token.NOT {
+				v = u.X
+			}
+			var fv *types.Var
+			switch x := v.(type) {
+			case *ssa.UnOp:
+				if fa, ok := x.X.(*ssa.FieldAddr); ok && x.Op == token.MUL {
+					fv = ir.FieldVar(fa)
+				}
+			case *ssa.Field:
+				if st, ok := x.X.Type().Underlying().(*types.Struct); ok && x.Field < st.NumFields() {
+					fv = st.Field(x.Field)
+				}
+			}
+			return fv != nil && fv.Name() == "Anonymous" && fv.Pkg() != nil && fv.Pkg().Path() == "reflect"
+		}
+		for _, lk := range lookups {
+			n++
+			bad := false
+			alts := ir.CondAltsAt(lk.Block())
+			if len(alts) == 0 {
+				alts = [][]ir.Cond{ir.CondsAt(lk.Block())}
+			}
+			for _, alt := range alts {
+				for _, cd := range alt {
+					if isAnon(cd.V) {
+						bad = true
+					}
+				}
+			}
+			c.Check(!bad, "TABLE.tag", f, "embedded field skipped only when untagged", lk.Pos(), "the json tag of a field is looked up whatever its Anonymous flag says", "whether a field's json tag is looked up depends on its Anonymous flag: a tagged embedded field would lose its position, so an array of the documented length is refused and a shorter one is decoded onto the wrong fields")
+		}
+	}
+	if n == 0 {
+		c.Undecided("TABLE.tag", nil, "embedded field skipped only when untagged", 0, "no test of reflect.StructField.Anonymous found next to a json tag lookup in the handler package")
+	}
+}
+
+// ruleSettleCopiesBoth (C04, C05, C09): the waiter that takes a delivered
+// message out of a Response's slot copies the message's error and result
+// members into the Response unconditionally — which of the two the peer sent
+// is not for the client to arbitrate ("completes with exactly the result or
+// error object the peer sent").
+func ruleSettleCopiesBoth(c *chk.Ctx) {
+	n := 0
+	for _, f := range pkgFuncs(c, c.M.Pkg) {
+		if f.Parent() != nil {
+			continue
+		}
+		var recv ssa.Value
+		ir.Instrs(f, func(ins ssa.Instruction) {
+			if tup, _, ok := slotRecvAt(c, ins); ok {
+				recv = tup
+			}
+		})
+		if recv == nil {
+			continue
+		}
+		for _, fld := range []*types.Var{c.M.RErr, c.M.RResult} {
+			found := false
+			c.P.ExtInstrs(f, func(ins ssa.Instruction) {
+				st, ok := ins.(*ssa.Store)
+				if !ok || !chk.IsField(st.Addr, fld) {
+					return
+				}
+				found = true
+				n++
+				extra := ""
+				for _, cd := range c.P.CondsWithin(st, f) {
+					if e, isE := cd.V.(*ssa.Extract); isE && e.Index == 1 && cd.Truth && (e.Tuple == recv || ir.IsExtractOfAny(e, recv)) {
+						continue // the receive delivered a message
+					}
+					if x, _, isCmp := ir.NilCompare(cd.V); isCmp {
+						if ir.IsExtractOfAny(ir.NormCell(x), recv) || ir.NormCell(x) == recv {
+							continue // a message was received at all
+						}
+					}
+					if extra == "" {
+						extra = cd.V.String()
+					}
+				}
+				c.Check(extra == "", "PROV.settle", st.Parent(), "settled "+fld.Name()+" copied unconditionally", st.Pos(), "the member is copied whenever a message was taken from the slot", "the "+fld.Name()+" member of a delivered reply is copied into the Response only under a further test ("+extra+"): for some well-formed replies (e.g. one carrying both members) the request would complete with something other than what the peer sent")
+			})
+			if !found {
+				c.Fail("PROV.settle", f, "settled "+fld.Name()+" copied unconditionally", f.Pos(), "the function that takes a delivered reply out of the slot never stores its %s member into the Response", fld.Name())
+			}
+		}
+	}
+	if n == 0 {
+		c.Undecided("PROV.settle", nil, "settled members copied unconditionally", 0, "no function receiving from a Response's slot found")
+	}
+}
+
+// ruleNotifyIgnoresContext (C09): with push enabled and the connection open,
+// every Notify transmits: Notify itself never consults its context.
+func ruleNotifyIgnoresContext(c *chk.Ctx) {
+	f := c.M.Func(c.M.Pkg, "(*Server).Notify")
+	if f == nil || len(f.Params) < 2 {
+		c.Undecided("WHO.push", nil, "Notify", 0, "Server.Notify not found")
+		return
+	}
+	bad := ""
+	ir.Calls(f, func(ci ssa.CallInstruction) {
+		cc := ci.Common()
+		if cc.IsInvoke() && (cc.Method.Name() == "Err" || cc.Method.Name() == "Done" || cc.Method.Name() == "Deadline") && strings.HasSuffix(cc.Value.Type().String(), "context.Context") && bad == "" {
+			bad = c.P.Pos(ci.Pos())
+		}
+		if ir.IsCallTo(cc, "context.Cause") && bad == "" {
+			bad = c.P.Pos(ci.Pos())
+		}
+	})
+	c.Check(bad == "", "WHO.push", f, "Notify transmits whatever its context says", f.Pos(), "Notify does not consult its context", "Notify consults its context (at "+bad+"): a notification posted with a context that has already ended would not be transmitted, although push is enabled and the connection is open")
+}
+
 // blockReachesFrom: b can be reached from a along control-flow edges.
 func blockReachesFrom(a, b *ssa.BasicBlock) bool {
 	seen := map[*ssa.BasicBlock]bool{}
